@@ -86,11 +86,20 @@ def fit_plain(cls, out):
     return f
 
 
+class Val:
+    """a result whose integer values go back to the harness (compared with a Lean model)"""
+
+    def __init__(self, v):
+        self.v = v
+
+
 def fn(f, **kw):
     def g(a, ex):
         p = dict(kw)
         p.update(ex.get('params', {}))
         r = f(a, **p)
+        if ex.get('want_value') and hasattr(r, 'shape') and np.asarray(r).dtype.kind in 'iub' and np.size(r) <= 256:
+            return Val([int(x) for x in np.asarray(r).ravel()])
         return str(np.shape(r)) if hasattr(r, 'shape') else str(r)[:40]
     return g
 
@@ -232,7 +241,11 @@ def main():
             a = mk(t['graph'])
             r = ALGOS[t['algo']](a, t.get('extra') or {})
             ans['status'] = 'ok'
-            ans['out'] = str(r)[:60]
+            if isinstance(r, Val):
+                ans['value'] = r.v
+                ans['out'] = 'values'
+            else:
+                ans['out'] = str(r)[:60]
         except BaseException as e:  # noqa
             if isinstance(e, (KeyboardInterrupt, SystemExit)):
                 raise
